@@ -237,6 +237,9 @@ func (mdb *MassDBV1) plotWork(cache *MemCache) error {
 			return err
 		}
 		bufRdA := bufio.NewReaderSize(hmA.data, minMapABufMem)
+		if size, ok := verifReadBufSize(); ok {
+			bufRdA = bufio.NewReaderSize(hmA.data, size)
+		}
 
 		for y := pocutil.PoCValue(0); y < half; y++ {
 			bufRdA.Read(bs)
